@@ -2385,6 +2385,7 @@ impl<'a> Visitor<'a, '_, Error> for JSONValidator<'a> {
             let mut jv = JSONValidator::new(self.state.cddl, self.json.clone());
 
             jv.state.generic_rules = self.state.generic_rules.clone();
+            jv.state.data_location = self.state.data_location.clone();
             jv.state.eval_generic_rule = Some(ident.ident);
             jv.state.is_group_to_choice_enum = true;
             jv.state.is_multi_type_choice = self.state.is_multi_type_choice;
@@ -2456,6 +2457,7 @@ impl<'a> Visitor<'a, '_, Error> for JSONValidator<'a> {
             let mut jv = JSONValidator::new(self.state.cddl, self.json.clone());
 
             jv.state.generic_rules = self.state.generic_rules.clone();
+            jv.state.data_location = self.state.data_location.clone();
             jv.state.eval_generic_rule = Some(ident.ident);
             jv.state.is_multi_type_choice = self.state.is_multi_type_choice;
             jv.visit_rule(rule)?;
@@ -2519,6 +2521,7 @@ impl<'a> Visitor<'a, '_, Error> for JSONValidator<'a> {
             let mut jv = JSONValidator::new(self.state.cddl, self.json.clone());
 
             jv.state.generic_rules = self.state.generic_rules.clone();
+            jv.state.data_location = self.state.data_location.clone();
             jv.state.eval_generic_rule = Some(ident.ident);
             jv.state.is_multi_type_choice = self.state.is_multi_type_choice;
             jv.visit_rule(rule)?;
@@ -3100,6 +3103,7 @@ impl<'a> Visitor<'a, '_, Error> for JSONValidator<'a> {
         let mut jv = JSONValidator::new(self.state.cddl, self.json.clone());
 
         jv.state.generic_rules = self.state.generic_rules.clone();
+        jv.state.data_location = self.state.data_location.clone();
         jv.state.eval_generic_rule = Some(entry.name.ident);
         jv.state.is_multi_type_choice = self.state.is_multi_type_choice;
         jv.visit_rule(rule)?;
